@@ -709,6 +709,8 @@ fn vpl_text() -> BoxedStrategy<Vec<u8>> {
 	let tr = prop_oneof![
 		(0u8..20, 0u8..20).prop_map(|(a, b)| format!("filter_zoom min={a} max={b}")),
 		(-180.0f64..0.0, -85.0f64..0.0, 0.0f64..180.0, 0.0f64..85.0).prop_map(|(a, b, c, d)| format!("filter_bbox bbox=[{a}, {b}, {c}, {d}]")),
+		// numbers a number parser accepts but a coordinate cannot be: NaN, infinities, huge, tiny, -0
+		(proptest::collection::vec(prop_oneof![Just("NaN"), Just("nan"), Just("inf"), Just("-inf"), Just("infinity"), Just("1e999"), Just("-1e999"), Just("1e-999"), Just("-0"), Just("-0.0"), Just("180"), Just("-180"), Just("90"), Just("-90"), Just("85.0511287798066"), Just("0"), Just("1e308"), Just("\"NaN\""), Just("+5"), Just(".5"), Just("5.")], 4), any::<bool>()).prop_map(|(v, zoom)| if zoom { format!("filter_zoom min={} max={}", v[0], v[1]) } else { format!("filter_bbox bbox=[{}]", v.join(",")) }),
 		Just("vectortiles_update_properties data_source_path=\"data.csv\" layer_name=w id_field_tiles=k id_field_data=col0".to_string()),
 		Just("vectortiles_update_properties data_source_path=\"data.csv\" layer_name=\"w\" id_field_tiles=\"k\" id_field_data=\"col0\" replace_properties=true remove_non_matching=true include_id=true".to_string()),
 	];
